@@ -413,10 +413,19 @@ class MeiParser(object):
             )
 
         if any([dppq is not None for dppq in durs_ppq]):
-            # there is at least one element with both dur and dur.ppq
-            for dur, dppq in zip(durs, durs_ppq):
+            # there is at least one element with both dur and dur.ppq:
+            # ppq is its dur.ppq divided by the number of quarters its notation denotes
+            for el, dppq in zip(els_with_dur, durs_ppq):
                 if dppq is not None:
-                    return dppq * dur / 4
+                    intsymdur, dots, tuplet_mod = self._intsymdur_from_symbolic(
+                        self._get_symbolic_duration(el)
+                    )
+                    quarters = (
+                        Fraction(4) / Fraction(intsymdur) * (2 - Fraction(1, 2**dots))
+                    )
+                    if tuplet_mod is not None:
+                        quarters = quarters * tuplet_mod[0] / tuplet_mod[1]
+                    return float(dppq / quarters)
         else:
             # compute the ppq from the durations
             # add 4 to be sure to not go under 1 ppq
